@@ -1,2 +1,163 @@
-import Moclo.Model.Entity
-/-! placeholder for C02 (theorems follow) -/
+import Moclo.Proofs.View
+import Moclo.Tables.Kits
+/-!
+# C02 — a plasmid has no origin: typing and assembly are rotation-invariant
+
+Model: `ClassSpec.matchSeq` (circular search + illegal-site screen), `Match.group` (`SeqMatch.group`),
+`targetWord` (`target_sequence`), placeholder, `assemble`.
+
+`UniqueStart p w`: the record contains exactly one occurrence of the class's structure — exactly one start
+below the length at which the pattern fits the one-turn window.  `ThreeGroups p`: the pattern records the
+three capture groups every MoClo structure has (kernel-checked for all kit classes, true by construction
+for the generic ones).  The theorems hold for **any** pattern of the supported fragment, hence for every kit
+and user-defined class, and for every rotation amount — in particular those that place the origin inside a
+recognition site, an overhang or the target.
+-/
+namespace Moclo.C02
+open Moclo
+
+def ThreeGroups (p : Pat) : Prop := 6 ≤ nmarks p
+
+/-- everything a class reports about a record: verdict (error or not), upstream and downstream overhangs,
+target, placeholder (downstream overhang ++ group 2; meaningful for vectors) -/
+def report (c : ClassSpec) (w : Word) : Except Err (Word × Word × Word × Word) :=
+  (c.matchSeq w).map (fun m => (m.group w c.upGroup, m.group w c.downGroup, targetWord c w m,
+    m.group w 1 ++ m.group w 2))
+
+theorem hasGroup_of_three {p : Pat} {text : Word} {rel : List Nat} (h3 : ThreeGroups p)
+    (h : relMatch p text = some rel) (g : Nat) (hg : g ≤ 3) : HasGroup rel.reverse g := by
+  have hl := (relMatch_marks h).1
+  unfold ThreeGroups at h3
+  rcases Nat.eq_zero_or_pos g with rfl | hpos
+  · left; refine ⟨rfl, ?_⟩
+    intro hc; have := congrArg List.length hc; simp only [List.length_reverse, List.length_nil] at this; omega
+  · right; refine ⟨hpos, ?_⟩; simp only [List.length_reverse]; omega
+
+/-- what is reported, as a function of the matched window and the relative marks only -/
+theorem report_of_view {c : ClassSpec} {w : Word} {i : Nat} {rel : List Nat} (h3 : ThreeGroups c.pat)
+    (hi : i < w.length) (hrel : relMatch c.pat (window w i) = some rel)
+    (hs : search c.pat w true = some ⟨i :: rel.reverse.map (· + i)⟩) :
+    report c w =
+      if validCuts c.geom (vgroup (window w i) rel.reverse 0) > 2 then .error .illegal
+      else .ok (vgroup (window w i) rel.reverse c.upGroup, vgroup (window w i) rel.reverse c.downGroup,
+                vTarget c.kind (window w i) rel.reverse,
+                vgroup (window w i) rel.reverse 1 ++ vgroup (window w i) rel.reverse 2) := by
+  have hg := fun g hg => hasGroup_of_three h3 hrel g hg
+  unfold report ClassSpec.matchSeq
+  rw [hs]
+  simp only []
+  rw [match_group_view hi hrel 0 (hg 0 (by omega))]
+  split
+  · rfl
+  · simp only [Except.map]
+    rw [match_group_view hi hrel 1 (hg 1 (by omega)), match_group_view hi hrel 2 (hg 2 (by omega)),
+      targetWord_view hi hrel (hg 1 (by omega)) (hg 2 (by omega))]
+    have hu : c.upGroup ≤ 3 := by unfold ClassSpec.upGroup; cases c.kind <;> simp
+    have hd : c.downGroup ≤ 3 := by unfold ClassSpec.downGroup; cases c.kind <;> simp
+    rw [match_group_view hi hrel _ (hg _ hu), match_group_view hi hrel _ (hg _ hd)]
+
+/-- **rotation invariance of typing**: for a record with exactly one occurrence of the class's structure,
+rotating by any amount changes neither the verdict (accepted, invalid, illegal site) nor the overhangs, the
+target or the placeholder -/
+theorem report_rotr (c : ClassSpec) (w : Word) (k : Nat) (h3 : ThreeGroups c.pat) (hu : UniqueStart c.pat w) :
+    report c (rotr w k) = report c w := by
+  obtain ⟨i, rel, hi, hrel, hs, hs', hwin⟩ := search_rotr k hu
+  have hn : 0 < w.length := by omega
+  have hl : (rotr w k).length = w.length := rotr_length w k
+  rw [report_of_view h3 hi hrel hs]
+  have hi' : (i + k) % w.length < (rotr w k).length := by rw [hl]; exact Nat.mod_lt _ hn
+  have := report_of_view (c := c) (w := rotr w k) (i := (i + k) % w.length) (rel := rel) h3 hi'
+    (by rw [hwin]; exact hrel) hs'
+  rw [this, hwin]
+
+/-- … for every integer amount, and in both directions -/
+theorem report_rotrI (c : ClassSpec) (w : Word) (k : Int) (h3 : ThreeGroups c.pat) (hu : UniqueStart c.pat w) :
+    report c (rotrI w k) = report c w ∧ report c (rotlI w k) = report c w := by
+  unfold rotlI rotrI
+  exact ⟨report_rotr c w _ h3 hu, report_rotr c w _ h3 hu⟩
+
+/-- a record without any occurrence is rejected at every rotation -/
+theorem invalid_rotr (c : ClassSpec) (w : Word) (k : Nat) (hn : 0 < w.length)
+    (h : ∀ j, j < w.length → relMatch c.pat (window w j) = none) :
+    report c (rotr w k) = .error .invalid ∧ report c w = .error .invalid := by
+  unfold report ClassSpec.matchSeq
+  rw [search_rotr_none k hn h, search_circ_none h]
+  exact ⟨rfl, rfl⟩
+
+/-- the verdict alone -/
+theorem isValid_rotr (c : ClassSpec) (w : Word) (k : Nat) (h3 : ThreeGroups c.pat) (hu : UniqueStart c.pat w) :
+    c.isValid (rotr w k) = c.isValid w := by
+  have h := report_rotr c w k h3 hu
+  unfold report at h
+  unfold ClassSpec.isValid
+  cases h1 : c.matchSeq (rotr w k) <;> cases h2 : c.matchSeq w <;> simp_all [Except.map]
+
+/-- the fragment an input contributes to an assembly, and the overhang keys the assembly graph is built
+from, are therefore the same: **rotating any input leaves the product literally unchanged** (C01 gives the
+product as the concatenation of these fragments along the chain the keys define) -/
+theorem fragment_and_keys_rotr (c : ClassSpec) (w : Word) (k : Nat) (h3 : ThreeGroups c.pat)
+    (hu : UniqueStart c.pat w) :
+    fragmentOf c (rotr w k) = fragmentOf c w ∧
+    (c.matchSeq (rotr w k)).map (fun m => (upperW (m.group (rotr w k) c.upGroup), upperW (m.group (rotr w k) c.downGroup)))
+      = (c.matchSeq w).map (fun m => (upperW (m.group w c.upGroup), upperW (m.group w c.downGroup))) := by
+  have h := report_rotr c w k h3 hu
+  unfold report at h
+  unfold fragmentOf
+  cases h1 : c.matchSeq (rotr w k) with
+  | error e =>
+    cases h2 : c.matchSeq w with
+    | error e' => rw [h1, h2] at h; simp only [Except.map, Except.error.injEq] at h; subst h; exact ⟨rfl, rfl⟩
+    | ok m' => rw [h1, h2] at h; simp [Except.map] at h
+  | ok m =>
+    cases h2 : c.matchSeq w with
+    | error e' => rw [h1, h2] at h; simp [Except.map] at h
+    | ok m' =>
+      rw [h1, h2] at h
+      simp only [Except.map, Except.ok.injEq, Prod.mk.injEq] at h
+      obtain ⟨a, b, t, _⟩ := h
+      exact ⟨t, by simp only [Except.map, a, b]⟩
+
+/-- the hypothesis `ThreeGroups` holds for every concrete class of the five kits (as their structures are
+now: kernel-checked on the regenerated table) and for every generic and signature-typed structure -/
+theorem kit_classes_three_groups : ∀ r ∈ Generated.kits, ThreeGroups r.pat := by
+  intro r hr
+  have := List.all_eq_true.mp Tables.kits_three_groups r hr
+  unfold ThreeGroups; simp at this; omega
+
+theorem nmarks_append (a b : Pat) : nmarks (a ++ b) = nmarks a + nmarks b := by
+  induction a with
+  | nil => simp [nmarks]
+  | cons t ts ih => cases t <;> simp [nmarks, ih] <;> omega
+
+theorem nmarks_lits (s : List Nt) : nmarks (lits s) = 0 := by
+  induction s with
+  | nil => rfl
+  | cons x xs ih => simpa [lits, nmarks] using ih
+
+theorem nmarks_nRun (n : Nat) : nmarks (nRun n) = 0 := by
+  induction n with
+  | zero => rfl
+  | succ n ih => simpa [nRun, List.replicate_succ, nmarks] using ih
+
+theorem generic_three_groups (kind : Kind) (g : Geom) : ThreeGroups (genericStructure kind g) := by
+  unfold ThreeGroups
+  cases kind <;>
+    simp [genericStructure, moduleStructure, vectorStructure, nmarks_append, nmarks_lits, nmarks_nRun, nmarks]
+
+theorem part_three_groups (kind : Kind) (g : Geom) (u d : List Nt) : ThreeGroups (partStructure kind g u d) := by
+  unfold ThreeGroups
+  cases kind <;>
+    simp [partStructure, modulePartStructure, vectorPartStructure, nmarks_append, nmarks_lits, nmarks_nRun, nmarks]
+
+/-! non-vacuity: the module of `Moclo.C01`'s example has a unique start, and at the rotation that puts
+the origin inside the upstream overhang the same overhangs and target are reported -/
+section example_
+def g : Geom := { site := [.G, .A], off := 1, k := 2 }
+def c : ClassSpec := { kind := .module, pat := moduleStructure g, geom := g }
+def w : Word := [.G,.A,.C,.A,.C,.A,.A,.A,.C,.A,.C,.T,.C,.G,.G].map (fun n => ⟨n, false⟩)
+example : ThreeGroups c.pat := by unfold ThreeGroups; decide
+example : ((List.range w.length).filter (fun i => (relMatch c.pat (window w i)).isSome)) = [0] := by decide
+example : report c (rotr w 11) = report c w ∧ (report c w).toOption.isSome := by decide
+end example_
+
+end Moclo.C02
